@@ -13,7 +13,7 @@ def run(tier, seed):
              'formula in every model (enumeration); plus the expression cache on networks with thousands of variables (profile cache: every pair and a third of the triples of 22 plain variables for every constructor, seeded requests with negated / repeated arguments): CacheTrace requires that a literal answered for two requests stands for equivalent formulas (truth table over their variables) and that constant / argument answers are equivalent to the request; distinct_nontrivial = distinct executions containing a constructor call',
         cache=(8, 40),
         assumptions=['at most 11 propositional variables per execution (model enumeration)',
-                     'argument lists are read as sets of literals'])
+                     'for at-most-one / exactly-one every occurrence of a repeated argument counts (the truth table of the RIDDLE operator)'])
 
 
 def replay(path):
